@@ -1,5 +1,7 @@
 #!/bin/sh
 # usage: verify_seed.sh <seed worktree> — re-runs the suite with the change, and the demo with / without it
+# (the change is taken out with `git apply -R` of its own diff, not with `git stash`: the stash is shared by all worktrees
+#  of a repository, so parallel seed agents would swap their changes)
 set -u
 W="$1"
 cd "$W" || exit 2
@@ -10,8 +12,9 @@ DEMO="$W/demo"; [ -d "$DEMO" ] || DEMO="$W/seed_out/demo"
 echo "== demo with change"
 (cd "$DEMO" && cargo run --offline >/tmp/demo_with.$$ 2>&1; echo "exit $?"; tail -3 /tmp/demo_with.$$)
 echo "== demo without change"
-git stash -q -- $(git diff --name-only | grep -v '^demo/\|^seed_out/') 
+git diff -- . ':!seed_out' ':!demo' > /tmp/seed_change.$$.diff
+git apply -R /tmp/seed_change.$$.diff
 (cd "$DEMO" && cargo run --offline >/tmp/demo_without.$$ 2>&1; echo "exit $?"; tail -3 /tmp/demo_without.$$)
-git stash pop -q
-rm -f /tmp/demo_with.$$ /tmp/demo_without.$$
+git apply /tmp/seed_change.$$.diff
+rm -f /tmp/demo_with.$$ /tmp/demo_without.$$ /tmp/seed_change.$$.diff
 git status --short | head -5
